@@ -650,6 +650,8 @@ def check_table_get(ctx):
 
 
 def check(ctx):
+    from . import tablefmt as _tf3
+    _tf3.check_policy_wrapping(ctx)   # filters are built and probed over user keys
     from . import tablefmt as _tf
     _tf.check_filter_offsets(ctx)   # a filter consulted by a lookup holds every key of its block and is probed as built
     from . import c14
